@@ -292,17 +292,43 @@ func (x *Exec) noteSync(g *G) {
 	if g.stallAfter >= 0 && g.syncOps >= g.stallAfter {
 		g.stalled = true
 	}
+	// vStallFunc: the goroutine that performs the k-th synchronisation
+	// operation inside the named function (counted over all goroutines) is
+	// descheduled from then on
+	if x.stallFunc != "" && x.stallFuncG == nil {
+		in := false
+		for _, fr := range g.frames {
+			if fr.fn.Name() == x.stallFunc {
+				in = true
+				break
+			}
+		}
+		if in {
+			x.stallFuncN++
+			if x.stallFuncN >= x.stallFuncK {
+				g.stalled = true
+				x.stallFuncG = g
+			}
+		}
+	}
+}
+
+// stallPoint: a point at which a designated goroutine may be descheduled by
+// stall exploration, but which is not a decision point of delay bounding
+// (mutex releases).
+func (x *Exec) stallPoint(g *G) {
+	x.noteSync(g)
+	if g.stalled {
+		// yield: the scheduler re-evaluates who can run (goroutines waiting for
+		// quiescence included) and comes back to g only if nobody else can
+		x.cur = nil
+	}
 }
 
 func (x *Exec) maybePreempt(g *G) bool {
 	x.noteSync(g)
 	if g.stalled {
-		for _, o := range x.gs {
-			if o != g && o.runnable() && !o.stalled {
-				x.forceNext = o
-				return true
-			}
-		}
+		return true // yield; see stallPoint
 	}
 	if x.preemptBudget <= 0 {
 		return false
